@@ -22,8 +22,10 @@ func Site(id int) string                            { return "?" }
 func Stats() (mapSites, yields, probes, unprobed int) { return }
 func Globals() []any                                { return nil }
 func BarrierReset()                                 {}
-func BarrierAddRegion(p uintptr, size uintptr)      {}
-func BarrierAddMap(id uintptr)                      {}
+func BarrierAddRegion(p uintptr, size uintptr, tag byte) {}
+func BarrierAddMap(id uintptr, tag byte)                 {}
+func BarrierHitsG() map[int]int                          { return nil }
+func SyncImported() bool                                 { return false }
 func BarrierSeal()                                  {}
 func BarrierEnable(on bool)                         {}
 func BarrierHits() map[int]int                      { return nil }
